@@ -23,18 +23,21 @@ META = {
 }
 
 NAMES = ("a", "A", "b", "é.txt", "a.b", "c d", "B")
-SIZES = (0, 100, 1500, 2049, 3000, 65536)
+SIZES = (0, 100, 1500, 1500, 2049, 3000, 65536)
 EXISTS, NOTFOUND = "CloudFileExistsError", "CloudFileNotFoundError"
 
 
 def content(rng, n, big=False):
-    size = rng.choice(SIZES if not big else (0, 100, 2049, 3000, 3000, 65536))
+    size = rng.choice(SIZES if not big else (0, 100, 1500, 1500, 2049, 3000, 3000, 65536))
     if not size:
         return b""
     if size > 2048 and (big or rng.random() < 0.85):
         # same first and last KiB, different middle: only a full-content hash tells such files apart
         mid = (b"%d:" % n + bytes(rng.getrandbits(8) for _ in range(8)) + b"m" * size)[:size - 2048]
         return b"H" * 1024 + mid + b"T" * 1024
+    if 1024 < size <= 2048 and rng.random() < 0.7:
+        # between 1 and 2 KiB: same first KiB, the difference lies behind it (a sampled hash must still see it)
+        return b"H" * 1024 + (b"%d:" % n + bytes(rng.getrandbits(8) for _ in range(8)) + b"t" * size)[:size - 1024]
     return (b"%d:" % n + bytes(rng.getrandbits(8) for _ in range(8)) + b"x" * size)[:size]
 
 
@@ -237,11 +240,14 @@ def run_sequence(drv, rng, nops, check_events=True):
                 if ent2 is None and drv.id_style == "path":
                     allowed = {NOTFOUND, EXISTS}
                 if expect(op, st, allowed, (k2, oid)) and st == "ok":
+                    old_data = ent2["data"]
                     ent2["data"] = data
                     muts.append((step, oid, True))
                     n_ok += 1
                     if info.hash != p.hash_data(io.BytesIO(data)):
                         probs.append(("upload: info.hash != hash_data(same bytes)", k2, len(data)))
+                    if old_data is not None and old_data != data and info.hash == p.hash_data(io.BytesIO(old_data)):
+                        probs.append(("upload: different bytes, same hash as the content they replaced", k2, len(old_data), len(data)))
             elif op == "download":
                 buf = io.BytesIO()
                 st, _ = call(p.download, oid, buf)
